@@ -94,12 +94,16 @@ impl Oracle for C05 {
         };
         let fresh_from = s.pre.tab.len() as u32 + 1;
         let mut chosen = pred.clone();
+        let mut merged_into_later = false;
         let mut ok = forests_match(&pred.forest, pf, fresh_from);
         if !ok {
             if let Some(q) = swap_lenient(&pred) {
                 if forests_match(&q.forest, pf, fresh_from) {
+                    // the character data is right, but the merge kept the *later* of the two text nodes and destroyed
+                    // the earlier one; the statement says "merged into the earlier one"
                     ok = true;
                     chosen = q;
+                    merged_into_later = true;
                 }
             }
         }
@@ -143,6 +147,10 @@ impl Oracle for C05 {
             st.bump("merges_or_text_removals");
         }
         let expand = fails.is_empty();
+        if merged_into_later && expand {
+            // reported, and the successor state is still explored (see bfs::SOFT_SIGNATURE)
+            fails.push(Fail::new(format!("{}|{}", crate::bfs::SOFT_SIGNATURE, s.op.name()), ctx(&format!("model predicts [{}] (earlier text node survives), observed [{}]", forest_show(&pred.forest), forest_show(pf)))));
+        }
         Verdict { fails, expand }
     }
 }
